@@ -7,14 +7,14 @@
  "annotate": ["util/json.c"],
  "defines": ["VERIF_HALLOC"],
  "thorough_defines": ["JS_MAX=48"],
- "models": ["models/io_libc_string.c"],
+ "models": ["models/libc_string.c"],
  "instrument_flags": ["--nondet-static-exclude", "numchars"],
  "cbmc": ["--object-bits", "10"],
  "native": true,
  "timeout": 300,
  "assumptions": ["static table numchars keeps its initialiser (not const in the source, but no function under contract has it in its assigns clause); DFCC would otherwise start it nondeterministic",
                  "document object size <= JS_MAX (24 quick / 48 thorough); the loop and recursion arguments are inductive, JS_MAX bounds only the symbolic object",
-                 "libc memcmp/strchr: models/io_libc_string.c (C11 semantics; private copy of models/libc_string.c, see its header)"]
+                 "libc memcmp/strchr: models/libc_string.c (C11 semantics)"]
 }
 */
 #include <stdlib.h>
